@@ -106,7 +106,7 @@ func genC15(w *World, res *CheckResult) {
 		tmp := &CheckResult{}
 		genInRange(w, tmp)
 		genInArray(w, tmp)
-		res.Obls = append(res.Obls, selectObls(tmp.Obls, `/post:(int|string)-guard$`, `/cover:rewrites$`)...)
+		res.Obls = append(res.Obls, selectObls(tmp.Obls, `/post:(int|string)-guard$`, `/post:shape$`, `/cover:rewrites$`)...)
 		res.Functions = append(res.Functions, tmp.Functions...)
 		verifyInit(w, res, "optimizer")
 	}
